@@ -265,3 +265,94 @@ def validate_scan(ctx, kind, seed, count, T=60, maxsp=20):
         s = dict(traces[len(traces) // 2])
         s["events"] = s["events"][:4] + ["..."]
         ctx.sample(s, limit=8)
+
+
+# ------------------------------------------------------------------------------------------------
+# session-level traces: public entry points on lists beyond the enumeration bound of Multi.tla
+MULTI_FNS = ["isi_profile", "sync_profile", "order_profile", "isi_distance", "sync", "order", "isi_matrix",
+             "sync_matrix", "dir_matrix", "dir_values", "filter"]
+# (multivariate SPIKE values have denominators that overflow TLC's 32-bit integers on these larger inputs;
+#  they are covered exhaustively on the small grids of Multi.tla)
+
+
+def multi_traces(seed, count, T=12, maxsp=5, nmax=6, mrts4=0, tau4=0, ri=False):
+    import impl
+    import checkers_multi as cm
+    rnd = random.Random(seed)
+    recs = []
+    for k in range(count):
+        fn = rnd.choice(MULTI_FNS)
+        n = rnd.choice([2, 3, 4, 5, nmax])
+        if fn.startswith("spike"):
+            n = min(n, 3)            # SPIKE values have large denominators: keep the exact sums inside 32 bits
+        trs = []
+        for i in range(n):
+            if trs and rnd.random() < 0.15:
+                trs.append(list(rnd.choice(trs)))          # repeated train
+            else:
+                trs.append(_rand_train(rnd, T, maxsp)[:maxsp])
+        if rnd.random() < 0.5 or fn == "filter":
+            idx = list(range(1, n + 1))
+        else:
+            m = rnd.randint(2, n)
+            idx = rnd.sample(range(1, n + 1), m)
+        iv = 0
+        if fn in ("isi_distance", "spike_distance", "sync", "isi_matrix", "sync_matrix") and rnd.random() < 0.5:
+            i = rnd.randint(0, 2 * T - 1)
+            j = rnd.randint(i + 1, 2 * T)
+            iv = 100 * i + j
+        thr = rnd.choice([1, 12, 13, 23, 11, 34, 14]) if fn == "filter" else 12
+        call = {"fn": fn, "idx": idx, "iv": iv, "thr": thr, "norm": fn == "dir_matrix" and rnd.random() < 0.5}
+        recs.append({"id": k, "ts": 0, "te": T, "tr": trs, "call": call,
+                     "mrts": [mrts4, 4], "mtau": [tau4, 4], "ri": ri})
+    return recs
+
+
+def validate_multi(ctx, seed, count, T=12, maxsp=5, nmax=6, mrts4=0, tau4=0, ri=False, backends=("py", "shim")):
+    """recorded calls of the session level validated against Multi!Eval; returned values compared"""
+    import impl
+    import checkers_multi as cm
+    from impl import call as _call
+    recs = multi_traces(seed, count, T, maxsp, nmax, mrts4, tau4, ri)
+    # the iv code uses 100*i+j with j <= 2T < 100
+    d = scratch("pyspike_tr_")
+    try:
+        path = os.path.join(d, "traces.json")
+        with open(path, "w") as f:
+            json.dump([{"id": r["id"], "tr": r["tr"], "call": r["call"]} for r in recs], f)
+        consts = dict(TS=0, TE=T, MaxSp=1, N=2, MRTS4=mrts4, TAU4=tau4, RIFlag="TRUE" if ri else "FALSE",
+                      FnSet='{"none"}', IdxMode='"none"', IvCodes="{0}", ThrCodes="{12}", Sample=0, PoolMode='"all"',
+                      AllTrains="<- NoTrains")
+        res = run_tlc("MultiTrace", consts, ["Expected"], init="TInit", nxt="TNext", workers=16, timeout=1800,
+                      env={"TRACE_FILE": path})
+        ctx.add_tlc(res, "%d recorded session-level calls (<= %d trains, <= %d spikes, T=%d) evaluated by Multi!Eval" % (count, nmax, maxsp, T))
+        if res.violated:
+            return
+        exp = {v["id"]: v["res"] for v in res.exports if v.get("k") == "expected"}
+        if len(exp) != len(recs):
+            raise MachineryError("session traces: %d expectations for %d calls" % (len(exp), len(recs)))
+    finally:
+        rmtree(d)
+    import contextlib
+    for be in backends:
+        impl.set_backend(be)
+        for r in recs:
+            rec = dict(r)
+            rec["res"] = exp[r["id"]]
+            sts = cm.trains_of(rec)
+            ident = rec["call"]["idx"] == list(range(1, len(rec["tr"]) + 1))
+            with open(os.devnull, "w") as dn, contextlib.redirect_stdout(dn):
+                st, out = _call(cm.invoke, rec, sts, "sub" if ident else "idx")
+            ctx.traces += 1
+            ctx.evaluations += 1
+            ctx.count_path("session-trace:%s:%d:%s" % (rec["call"]["fn"], len(rec["tr"]), len(rec["call"]["idx"])))
+            if st != "ok":
+                ctx.mismatch("trace_multi", dict(rec, _backend=be), "session trace [%s] %s raised %s" % (be, cm.hdr(rec), out))
+                continue
+            got, want = cm.norm_result(rec, out), cm.expected_result(rec)
+            if not cm.equal_results(want, got):
+                ctx.mismatch("trace_multi", dict(rec, _backend=be),
+                             "session trace [%s] %s: returned %s, the specification gives %s" % (be, cm.hdr(rec), cm.rstr(got), cm.rstr(want)))
+    impl.set_backend("py")
+    if recs:
+        ctx.sample({"session_trace": recs[len(recs) // 2]}, limit=8)
